@@ -10,7 +10,7 @@ import json
 import os
 import subprocess
 
-from .. import build, driver, toolchain
+from .. import lockstep
 
 RULE = ('grid: rapidcheck-generated architectural state (corner/random registers, memory steered so that effective addresses are in range '
         'by construction) x all 256 instruction bytes; seq: generated instruction sequences (prefix chains 0-8, all three system calls, '
@@ -19,147 +19,16 @@ RULE = ('grid: rapidcheck-generated architectural state (corner/random registers
         'sequence/image that executed >= 8 steps before leaving the domain; distinct by hash of (byte, registers) / image bytes.')
 
 
-def run_harness(exe, mode_args, seed, n, scratch, tag, size=100):
-    d = os.path.join(scratch, tag)
-    os.makedirs(d, exist_ok=True)
-    env = driver.san_env({'RC_PARAMS': 'seed=%d max_success=%d max_size=%d' % (seed, n, size),
-                          'C02_OUT': os.path.join(d, 'out.json'), 'C02_FAIL': os.path.join(d, 'fail.json'), 'C02_DIR': d})
-    return subprocess.Popen([exe] + mode_args, stdout=subprocess.PIPE, stderr=subprocess.PIPE, env=env), d
-
-
-def state_args(st, byte):
-    return ['state'] + [str(st[k]) for k in ('pc', 'areg', 'breg', 'oreg', 'target', 'targetVal', 'fetchWord', 'sp')] + \
-        [str(v) for v in st['spVals']] + [str(st['svcNum']), '1' if st['steer'] else '0', 'x' + st['input'], str(byte)]
-
-
-def rerun_case(exe, case, scratch, tag='rerun'):
-    """Re-execute a failing case outside rapidcheck. Returns (failed, diff)."""
-    d = os.path.join(scratch, tag)
-    os.makedirs(d, exist_ok=True)
-    env = driver.san_env({'C02_FAIL': os.path.join(d, 'fail.json'), 'C02_DIR': d})
-    try:
-        os.unlink(os.path.join(d, 'fail.json'))
-    except OSError:
-        pass
-    if case['kind'] == 'grid':
-        args = state_args(case['state'], case.get('byte', -1))
-    else:
-        img = os.path.join(d, 'replay.bin')
-        inp = os.path.join(d, 'replay.in')
-        if case.get('file'):
-            open(img, 'wb').write(bytes.fromhex(case['file']))
-        else:
-            img = case['path']
-        open(inp, 'wb').write(bytes.fromhex(case.get('input', '')))
-        args = ['image', img, inp, str(case.get('max_steps', 50000000))]
-    r = subprocess.run([exe] + args, stdout=subprocess.PIPE, stderr=subprocess.PIPE, env=env)
-    fp = os.path.join(d, 'fail.json')
-    if os.path.exists(fp):
-        return True, json.load(open(fp)).get('diff', '')
-    if r.returncode != 0:
-        return True, 'harness exited %d: %s' % (r.returncode, r.stderr.decode(errors='replace')[-800:])
-    return False, ''
-
-
-def report(ctx, exe, case, scratch):
-    fails = 0
-    diff = case.get('diff', '')
-    for i in range(3):
-        f, d = rerun_case(exe, case, scratch)
-        fails += 1 if f else 0
-        diff = d or diff
-    if fails < 3:
-        ctx.flaky.append({'case': case, 'fails_of_3': fails})
-        return
-    ctx.violation(case, diff)
+ASSUME = ['refisa is a faithful transcription of hexb.pdf (validated by selftest against tests/asm outputs)',
+          'hexsim memory is zeroed by the harness before each case (uninitialised memory is C12\'s subject)',
+          'one file index is used in one direction only within a case (shared connected[] flag in the reference)']
 
 
 def run(ctx):
     ctx.rule = RULE
-    ctx.assumptions = ['refisa is a faithful transcription of hexb.pdf (validated by selftest against tests/asm outputs)',
-                       'hexsim memory is zeroed by the harness before each case (uninitialised memory is C12\'s subject)',
-                       'one file index is used in one direction only within a case (shared connected[] flag in the reference)']
-    exe = build.exe('c02')
-    quick = ctx.tier == 'quick'
-    with driver.Scratch('c02') as scratch:
-        # regression corpus
-        for path in driver.regress_files('C02'):
-            case = driver.load_json(path)
-            f, d = rerun_case(exe, case, scratch)
-            ctx.evaluations += 1
-            if f:
-                ctx.violation(case, 'regression corpus %s: %s' % (os.path.basename(path), d))
-        procs = []
-        W = driver.NCPU
-        n_grid = 2500 if quick else 150000
-        n_seq = 2500 if quick else 150000
-        for w in range(W):
-            procs.append(('grid', run_harness(exe, ['grid'], ctx.seed * 1000 + w + 1, n_grid, scratch, 'grid%d' % w)))
-        for w in range(W):
-            procs.append(('seq', run_harness(exe, ['seq'], ctx.seed * 1000 + 500 + w + 1, n_seq, scratch, 'seq%d' % w)))
-        # toolchain images (built while the rapidcheck workers run)
-        images = toolchain.shipped_images(scratch, include_xhexb=not quick)
-        img_procs = []
-        for name, img, inp in images:
-            d = os.path.join(scratch, 'img-' + name)
-            os.makedirs(d, exist_ok=True)
-            ip = os.path.join(d, 'input')
-            open(ip, 'wb').write(inp)
-            env = driver.san_env({'C02_OUT': os.path.join(d, 'out.json'), 'C02_FAIL': os.path.join(d, 'fail.json'), 'C02_DIR': d})
-            img_procs.append((name, img, inp, d, subprocess.Popen([exe, 'image', img, ip, '60000000'], stdout=subprocess.PIPE, stderr=subprocess.PIPE, env=env)))
-        grid_distinct = 0
-        for kind, (p, d) in procs:
-            so, se = p.communicate()
-            outp = os.path.join(d, 'out.json')
-            if os.path.exists(outp):
-                o = json.load(open(outp))
-                if kind == 'grid':
-                    ctx.evaluations += o['defined_grid_steps'] + o['undefined'] + o['out_of_domain']
-                else:
-                    ctx.evaluations += o['cases']
-                ctx.nontrivial_extra += o['distinct']
-                ctx.discarded['undefined_encoding'] += o['undefined']
-                ctx.discarded['out_of_domain'] += o['out_of_domain']
-                for k, v in o['classes'].items():
-                    ctx.classes[kind + ':' + k] += v
-                for s in o['samples'][:1]:
-                    ctx.sample({kind: s})
-                ctx.notes['steps_compared'] = ctx.notes.get('steps_compared', 0) + o['steps']
-            fp = os.path.join(d, 'fail.json')
-            if os.path.exists(fp):
-                report(ctx, exe, json.load(open(fp)), scratch)
-            elif p.returncode != 0:
-                ctx.error('c02 %s worker exited %d without a counterexample: %s' % (kind, p.returncode, se.decode(errors='replace')[-1500:]))
-        for name, img, inp, d, p in img_procs:
-            so, se = p.communicate()
-            outp = os.path.join(d, 'out.json')
-            if os.path.exists(outp):
-                o = json.load(open(outp))
-                ctx.evaluations += 1
-                ctx.nontrivial_extra += o['distinct']
-                ctx.notes['steps_compared'] = ctx.notes.get('steps_compared', 0) + o['steps']
-                ctx.notes.setdefault('images', {})[name] = o['steps']
-                for k, v in o['classes'].items():
-                    ctx.classes['image:' + k] += v
-            fp = os.path.join(d, 'fail.json')
-            if os.path.exists(fp):
-                case = json.load(open(fp))
-                case['name'] = name
-                if not case.get('file'):
-                    case['file'] = open(img, 'rb').read().hex()
-                case.pop('path', None)
-                report(ctx, exe, case, scratch)
-            elif p.returncode != 0:
-                ctx.error('c02 image %s exited %d: %s' % (name, p.returncode, se.decode(errors='replace')[-1500:]))
-        ctx.min_nontrivial = 1000
+    ctx.assumptions = ASSUME
+    lockstep.run(ctx, 'C02', 'c02', (2500, 150000), (2500, 150000))
 
 
 def replay(path):
-    case = driver.load_json(path)
-    exe = build.exe('c02')
-    with driver.Scratch('c02r') as scratch:
-        f, d = rerun_case(exe, case, scratch)
-    print('replay %s: %s %s' % (path, 'FAIL' if f else 'PASS', d))
-    if f:
-        print('VIOLATION property=C02 replay=%s' % path)
-    return 1 if f else 0
+    return lockstep.replay(path, 'C02', 'c02', 'C02')
